@@ -57,14 +57,14 @@ theorem rawLabels_progsOf (hp : ParseCaught X) (hpl : FeaturesPlain X) :
       · simp only [Except.ok.injEq] at hpp
         rw [← hpp, List.mem_singleton] at hl
         rw [hl]
-        simp [emptyLabel, sAst, sInternalPrefix, sImport, dropPrefix?]
+        simp [emptyLabel, astLabel, sAst, sInternalPrefix, sImport, dropPrefix?]
       · exact hpl _ t ls hpp l hl
 
 /-- **C14 (every file reported).** For all files and ALL behaviours of `clean` (it may raise anything)
 and of `parse` (raising only the classes the code catches), `collect` returns a database with exactly
 one record per file, in order; the record of a file whose `parse` fails with `E` holds the single label
 `ast_construction:E` on lines `1..(number of newlines + 1)` and, as taxa, the taxonomy's answer on that
-single label; an empty file likewise with `EmptyProgramError` on `(0, 0)`. -/
+single label; an empty file likewise with `EmptyProgramError` (same lines, fix 57ac228). -/
 theorem C14_every_file_reported (hp : ParseCaught X) (hf : FeaturesTotal X) (hpl : FeaturesPlain X)
     (hn : (files.map (·.1)).Nodup) :
     ∃ db, collect X toTaxa files = .ok db ∧ Reported X toTaxa files db := by
@@ -97,11 +97,12 @@ theorem C14_every_file_reported (hp : ParseCaught X) (hf : FeaturesTotal X) (hpl
       simp only [recordOf, hl, preparedLabels_single, astLabel, preparedSpans_single, Span3.poor]
       constructor <;> first | rfl | trivial
     · intro t ht hemp
-      have hl : labelsOf (internalOf (progsOf X files)) (progOf X f) = [emptyLabel] := by
+      have hl : labelsOf (internalOf (progsOf X files)) (progOf X f) = [emptyLabel (srcOf X f)] := by
         simp only [labelsOf, progOf, labelsD, parseProgram_empty ht hemp, relabel,
           List.map_cons, List.map_nil]
-        simp only [emptyLabel, relabelName_ast _ sEmpty_noColon]
-      simp only [recordOf, hl, preparedLabels_single, emptyLabel, preparedSpans_single, Span3.poor]
+        simp only [emptyLabel, astLabel, relabelName_ast _ sEmpty_noColon]
+      simp only [recordOf, hl, preparedLabels_single, emptyLabel, astLabel, preparedSpans_single,
+        Span3.poor]
       constructor <;> first | rfl | trivial
 
 /-- **C14 (a raising `clean` is harmless).** When the cleaning raises on a file, the stored source of
@@ -207,7 +208,8 @@ theorem C14_tag_reports (hp : ParseCaught X) (hf : FeaturesTotal X) (src : Name)
       tagMain X toTaxa src = .ok ([astLabel e.name (X.prepare src)],
         toTaxa [] [astLabel e.name (X.prepare src)])) ∧
     (∀ t, X.parse (X.prepare src) = .ok t → X.isEmpty t = true →
-      tagMain X toTaxa src = .ok ([emptyLabel], toTaxa [] [emptyLabel])) := by
+      tagMain X toTaxa src = .ok ([emptyLabel (X.prepare src)],
+        toTaxa [] [emptyLabel (X.prepare src)])) := by
   refine ⟨?_, ?_, ?_⟩
   · obtain ⟨ls, hls⟩ := parseProgram_total hp hf (X.prepare src)
     exact ⟨_, by unfold tagMain; rw [hls]⟩
